@@ -210,6 +210,7 @@ bool GetUintEnvironmentVariable(const char *env_var_name, std::uint32_t &value)
 
   const char *end  = raw_value.c_str() + raw_value.length();
   char *actual_end = nullptr;
+  errno            = 0;  // strtoull() only ever sets errno; a stale ERANGE must not reject the value
   const auto temp  = std::strtoull(raw_value.c_str(), &actual_end, 10);
 
   if (errno == ERANGE)
@@ -251,6 +252,7 @@ bool GetFloatEnvironmentVariable(const char *env_var_name, float &value)
 
   const char *end  = raw_value.c_str() + raw_value.length();
   char *actual_end = nullptr;
+  errno            = 0;  // strtof() only ever sets errno; a stale ERANGE must not reject the value
   value            = std::strtof(raw_value.c_str(), &actual_end);
 
   if (errno == ERANGE)
